@@ -4,6 +4,7 @@ use super::context::{Config, Error, ValidationState};
 use super::group::ValidatedGroup;
 use super::nsec::{Nsec3Cache, Nsec3NXStateNoCE, NsecNXState};
 use super::nsec::{nsec_for_not_exists, nsec3_for_not_exists_no_ce};
+use crate::base::cmp::CanonicalOrd;
 use crate::base::iana::{Class, ExtendedErrorCode};
 use crate::base::name::Label;
 use crate::base::opt::ExtendedError;
@@ -173,8 +174,15 @@ pub fn ttl_for_sig(
     let orig_ttl = sig.data().original_ttl();
     let ttl = min(ttl, orig_ttl);
 
-    let until_expired =
-        sig.data().expiration().into_int() - Timestamp::now().into_int();
+    // Timestamps use serial number arithmetic. A signature that has
+    // expired has no lifetime left.
+    let now = Timestamp::now();
+    let expiration = sig.data().expiration();
+    let until_expired = if now.canonical_gt(&expiration) {
+        0
+    } else {
+        expiration.into_int().wrapping_sub(now.into_int())
+    };
     let expire_ttl = Ttl::from_secs(until_expired);
     min(ttl, expire_ttl)
 }
